@@ -1301,8 +1301,33 @@ pub(crate) fn m_footnote_list() {
     }
 }
 
+/// A colour set on a block element ends with the element, whatever kind of block it is.
+pub(crate) fn m_block_colour_leak() {
+    let _which: u8 = kani::any();
+    let blocks: [(&str, &str); 12] = [
+        ("<blockquote style=\"color:#ff0000\">", "</blockquote>"), ("<dl><dd style=\"color:#ff0000\">", "</dd></dl>"),
+        ("<dl><dt style=\"color:#ff0000\">", "</dt></dl>"), ("<dl style=\"color:#ff0000\"><dt>", "</dt></dl>"),
+        ("<ul style=\"color:#ff0000\"><li>", "</li></ul>"), ("<ul><li style=\"color:#ff0000\">", "</li></ul>"),
+        ("<ol style=\"color:#ff0000\"><li>", "</li></ol>"), ("<ol><li style=\"color:#ff0000\">", "</li></ol>"),
+        ("<h2 style=\"color:#ff0000\">", "</h2>"), ("<div style=\"color:#ff0000\">", "</div>"),
+        ("<p style=\"color:#ff0000\">", "</p>"), ("<pre style=\"color:#ff0000\">", "</pre>"),
+    ];
+    let red = RichAnnotation::Colour(Colour { r: 255, g: 0, b: 0 });
+    let blue = RichAnnotation::Colour(Colour { r: 0, g: 0, b: 255 });
+    for (open, close) in blocks.iter() {
+        let html = format!("<div style=\"color:#0000ff\"><p>before</p>{}inside{}<p>after</p></div><p>outside</p>", open, close);
+        let toks = rich_tokens(html.as_bytes(), 60, true);
+        let find = |w: &str| toks.iter().find(|(t, _)| t.contains(w)).map(|(_, a)| a.clone()).unwrap_or_else(|| panic!("{}: token {} missing", open, w));
+        let colours = |w: &str| -> Vec<RichAnnotation> { find(w).into_iter().filter(|a| matches!(a, RichAnnotation::Colour(_))).collect() };
+        assert!(colours("inside") == vec![blue.clone(), red.clone()], "{}: the element's colour nests inside the enclosing one: {:?}", open, colours("inside"));
+        assert!(colours("after") == vec![blue.clone()], "{}: text after the element: {:?}", open, colours("after"));
+        assert!(colours("before") == vec![blue.clone()], "{}: text before the element: {:?}", open, colours("before"));
+        assert!(colours("outside").is_empty(), "{}: a colour leaks past the enclosing element: {:?}", open, colours("outside"));
+    }
+}
+
 crate::verif_common::registry! {
-    m_footnote_list, m_strike_layout, m_element_dispatch, m_link_min_width, m_table_sections, m_table_caption, m_inline_tags, m_colspan_huge, m_frag_in_word, m_ol_prefix_width, m_dom_reuse, m_columns, m_prefix_blank_lines, m_shallow_empty, m_link_footnotes, m_strike_affix, m_frag_nested, m_dom_children, m_cell_unwind, m_routes_width, m_insert_child, m_ol_numbering, m_prefix_width, m_into_cells, m_table_col_width, m_table_alloc,
+    m_block_colour_leak, m_footnote_list, m_strike_layout, m_element_dispatch, m_link_min_width, m_table_sections, m_table_caption, m_inline_tags, m_colspan_huge, m_frag_in_word, m_ol_prefix_width, m_dom_reuse, m_columns, m_prefix_blank_lines, m_shallow_empty, m_link_footnotes, m_strike_affix, m_frag_nested, m_dom_children, m_cell_unwind, m_routes_width, m_insert_child, m_ol_numbering, m_prefix_width, m_into_cells, m_table_col_width, m_table_alloc,
     r1_cascade_pairs, r1_cascade_triples, r2_specificity_order, r2_specificity_add,
     r3_ol_prefix_total, r4_ol_prefix_is_max,
     r9_tree_map_reduce_order, r12_config_plumbing, r12_width_zero,
